@@ -145,7 +145,7 @@ func Map(tag string, sh Shape) map[string]interface{} {
 func EqLeaf(got, want interface{}, label string) {
 	switch w := want.(type) {
 	case nil:
-		rt.Assert(got == nil, label)
+		rt.Assert(IsNull(got), label)
 	case string:
 		g, ok := got.(string)
 		rt.Assert(ok, label)
@@ -220,4 +220,17 @@ func DeepCopy(v interface{}) interface{} {
 		return l
 	}
 	return v
+}
+
+// IsNull: JSON null, including typed nil maps/slices (which marshal to null).
+func IsNull(v interface{}) bool {
+	switch x := v.(type) {
+	case nil:
+		return true
+	case map[string]interface{}:
+		return x == nil
+	case []interface{}:
+		return x == nil
+	}
+	return false
 }
